@@ -220,3 +220,5 @@ def search_cases(broken, rng):
     for t in ids:
         for c in itertools.product(LETTERS, repeat=3):
             yield {'id': t, 'codon': ''.join(c)}
+
+MODELLED_FUNCS = {'sugar/data/__init__.py': ['gcode']}
